@@ -24,7 +24,7 @@ func (fg *FuncGen) exec(in ssa.Instruction) {
 			return
 		}
 		r := fg.newRef(st)
-		fg.ownAllocs = append(fg.ownAllocs, r)
+		fg.ownAllocs = append(fg.ownAllocs, ownAlloc{T: r, typ: x.Type()})
 		fg.storeRef(st, r, el, e.zero(el))
 		fg.vals[x] = Val{T: r, Typ: x.Type()}
 		if ct, _ := fg.structInvFor(x.Type()); ct != nil {
@@ -861,6 +861,8 @@ func (fg *FuncGen) execLookup(x *ssa.Lookup) {
 	// a nil map has an empty domain
 	dom := fmt.Sprintf("(and (not (= %s 0)) (select (select %s %s) %s))", xv, fg.get(fg.cur, d), xv, k)
 	domN := fg.namedBool("has", dom)
+	// a map that holds a key is not empty
+	fg.assume(implies(domN, e.iop("<", e.ilit(0), fmt.Sprintf("(%s (select %s %s))", fg.cardFn(m), fg.get(fg.cur, d), xv), true)))
 	val := fg.named("mv", e.sortOf(m.Elem()), ite(domN, fmt.Sprintf("(select (select %s %s) %s)", fg.get(fg.cur, vc), xv, k), e.zero(m.Elem())))
 	if f := fg.typeFactsTerm(val, m.Elem(), fg.cur); f != "" {
 		fg.assume(f)
